@@ -1,14 +1,34 @@
 # C04 — every acquired frame reaches storage exactly once, in order, bit-exact (compositional, DESIGN §3)
 import importlib.util, os
 _s = importlib.util.spec_from_file_location("rc", os.path.join(VERIF, "props", "_runtime_common.py")); rc = importlib.util.module_from_spec(_s); _s.loader.exec_module(rc)
+_spec = importlib.util.spec_from_file_location("c01", os.path.join(VERIF, "props", "C01.py"))
+_c01 = importlib.util.module_from_spec(_spec); _c01.H = H; _c01.VERIF = VERIF; _c01.REPO = REPO
+_spec.loader.exec_module(_c01)
+
+def gch():
+    hs = [h for h in _c01._harnesses("quick", []) if any(k in h.name for k in ("write_map", "write_unmap", "read_map_R", "read_unmap"))]
+    for h in hs:
+        h.what = "G-CH leaf (channel induction step, as C01/C02): " + h.what
+    return hs
 
 def harnesses(tier, findings):
-    if tier == "probe":
-        return [rc.sink_unit(H, VERIF, 0, 2, 1, polls=2, envmax=5, timeout=900, delay0=True, tag="d0"), rc.sink_unit(H, VERIF, 0, 1, 1, polls=2, envmax=4, timeout=900, tag="n1"),
-                rc.sink_unit(H, VERIF, 0, 2, 2, polls=2, envmax=5, timeout=900, tag="k2")]
+    excl = True
     if tier == "quick":
-        return [rc.source_unit(H, VERIF, 0, 2, 2), rc.sink_unit(H, VERIF, 0, 2, 2)]
-    return [rc.source_unit(H, VERIF, 0, 3, 2, timeout=3000), rc.sink_unit(H, VERIF, 0, 3, 2, timeout=3000),
-            rc.source_unit(H, VERIF, 0, 2, 1, timeout=3000), rc.sink_unit(H, VERIF, 0, 2, 3, timeout=3000)]
+        return [rc.source_unit(H, VERIF, 0, 2, 1, envmax=6), rc.source_unit(H, VERIF, 0, 3, 2, envmax=8, tag="b"),
+                rc.sink_unit(H, VERIF, 0, 2, 1, polls=2, envmax=5, delay0=True, tag="d0"),
+                rc.start_flags(H, VERIF, 1), rc.start_flags(H, VERIF, 2), rc.start_flags(H, VERIF, 3),
+                rc.inst(H, VERIF, 2, 2, 1, 0, 1, excl=excl), rc.inst(H, VERIF, 2, 2, 0, 0, 1, excl=excl)] + gch()
+    return [rc.source_unit(H, VERIF, 0, 3, 1, envmax=8, timeout=3000), rc.source_unit(H, VERIF, 0, 3, 2, envmax=8, timeout=3000, tag="b"),
+            rc.sink_unit(H, VERIF, 0, 2, 1, polls=2, envmax=5, delay0=True, tag="d0", timeout=3000), rc.sink_unit(H, VERIF, 0, 2, 1, polls=2, envmax=5, tag="dsym", timeout=3500),
+            rc.sink_unit(H, VERIF, 0, 2, 2, polls=2, envmax=5, tag="k2", timeout=3500),
+            rc.start_flags(H, VERIF, 1), rc.start_flags(H, VERIF, 2), rc.start_flags(H, VERIF, 3),
+            rc.inst(H, VERIF, 2, 2, 1, 0, 1, excl=excl), rc.inst(H, VERIF, 2, 2, 0, 0, 1, excl=excl), rc.inst(H, VERIF, 2, 3, 1, 0, 1, ring=4, excl=excl, timeout=3000),
+            rc.api(H, VERIF, 2, 1, 2, 3, 3000, name="api_two_streams")] + gch()
 
-META = dict(level="model_checking", bounds=dict(quick="N<=2 frames, ring 2 frames", thorough="N<=3"), outside="", assumptions=[])
+META = dict(
+    level="model_checking",
+    bounds=dict(quick="G-SRC: N<=3 frames, ring 1-2 frames, <=8 environment steps; G-SNK: N<=2, ring 1 frame, <=2 polls, write delay 0; G-CH: channel induction steps (3 reader slots); G-API: start functions from arbitrary flags + whole-runtime coarse runs (2 acquisitions x 2 frames)",
+                thorough="G-SNK also with symbolic write delay and ring 2; N<=3; two streams"),
+    outside="the composition argument of DESIGN §3 (trusted); frame sizes other than the mock's (framing arithmetic for every shape is C05); N>3; more than 8 environment steps per unit run",
+    assumptions=["units run on the channel contract model env/chan_contract.c (= G-CH, established by the induction steps listed here)", "mock camera/storage; C stub of the device manager", "boundary scheduling (B) in the units; coarse schedules in the whole-runtime runs"],
+)
